@@ -3,6 +3,16 @@
 import json, sys, os
 V = '/verif'
 CLAIMED = {
+
+ 'C01': ("stateless DFS over thread schedules of real Conn + Server.ServeCodec (deviation-bounded), discriminating payloads",
+         "2-3 concurrent callers (all call forms, sizes below/at/above every buffer, a reply twice the request) against gated handlers released in every order, all four header encoders, server pipelining/direct I/O, client direct I/O/pipelining, two connections on one server with colliding sequence numbers, follow-up traffic; every interleaving with at most d deviations runs the real code and every successful reply must equal F(own arguments) byte for byte, also after the follow-up calls.",
+         "message-level transport model (fragmentation is covered by the byte-pipe scenarios when present in the evidence); bounds d<=2 quick / d<=3 thorough", "5 C01"),
+ 'C05': ("stateless DFS over thread schedules of pipelined real Conn + Server (deviation-bounded)",
+         "3-4 asynchronous Go calls of different sizes (every second one failing in the handler, handlers with internal scheduling points) on one shared Done channel, server pipelining on, client pipelining off/on, direct I/O off/on, plus two pipelined connections on one server (one stalled): handler start order, non-overlap, response wire order and (with client pipelining) completion order must equal issue order in every explored interleaving.",
+         "poll-mode variants are listed in the evidence when the poll emulation scenarios are present; bounds d<=2 quick / d<=3 thorough", "5 C05"),
+ 'C06': ("stateless DFS (deviation-bounded) + complete enumeration of failure-kind mixes, encoders and error texts",
+         "All mixes of 2 (quick) / 3 in-flight calls over {success, handler error, unknown method, undecodable arguments, unencodable reply, client-side unencodable request} x 4 header encoders x 7 error texts (1/127/128/304 bytes, multi-byte UTF-8, the shutdown text) followed by 1/3/5 further calls: exactly the failing calls fail, with the server-side text at return and again after further traffic (pool poisoning exposes aliasing at once), reply objects keep their sentinel, neighbours and later calls succeed with their own replies, a failed client-side encode leaves NumCalls unchanged.",
+         "JSON body codec; error texts up to 304 bytes (not tens of KB); bounds d<=1 quick / d<=2 thorough", "5 C06"),
  # id: (technique, level text, level note, design ref)
  'C02': ("stateless DFS over thread schedules + fault placements of the real Conn (deviation-bounded), scripted raw peer",
          "Every interleaving with at most d schedule deviations and f injected write failures of 1-2 outstanding calls of every form (Call, Go, RoundTrip, CallWithContext, Ping) against a scripted raw peer (normal, duplicate, unsolicited, error-then-success, answer-then-EOF, EOF) racing with a local Close is executed on the real instrumented Conn; each call must be signalled exactly once, keep its Error, and a follow-up call must not be hit by a late completion. Exhaustive within the bounds stated in the evidence file.",
